@@ -494,11 +494,14 @@ func cgGen(tier string, emit func(cgConfig, bool)) {
 				emit(cgConfig{Table: t, NotAllowed: o&1 != 0, Fallback: o&2 != 0, Strict: o&4 != 0, Cap: c, OptStyle: (t + o + c) % 4}, tier == "thorough")
 			}
 			// the same graph next to a sibling router built from the same option values
-			if (t+o)%2 == 0 || tier == "thorough" {
+			if (t+o)%4 == 0 || tier == "thorough" {
 				emit(cgConfig{Table: t, NotAllowed: o&1 != 0, Fallback: o&2 != 0, Strict: o&4 != 0, Cap: 2, OptStyle: (t + o) % 3, Sibling: true}, tier == "thorough")
 			}
 			// the same graph with the registration of the last route as one more action of the alphabet
 			for _, c := range map[string][]int{"quick": {2}, "thorough": {1, 3}}[tier] {
+				if tier == "quick" && (t+o)%2 == 1 {
+					continue
+				}
 				emit(cgConfig{Table: t, NotAllowed: o&1 != 0, Fallback: o&2 != 0, Strict: o&4 != 0, Cap: c, OptStyle: (t + o + c) % 4, Late: true}, tier == "thorough")
 			}
 		}
